@@ -61,7 +61,7 @@ class Guard:
 
 
 class St:
-    __slots__ = ("tok", "env", "pc", "guards", "gbase", "status", "loopdepth")
+    __slots__ = ("tok", "env", "pc", "guards", "gbase", "status", "loopdepth", "rewound")
 
     def __init__(self):
         self.tok: Tuple = ()
@@ -71,6 +71,7 @@ class St:
         self.gbase = 0
         self.status = "n"           # n | ret | raise | brk | cont
         self.loopdepth = 0
+        self.rewound = False        # the path put the stream position back (a peek): nothing consumed
 
     def copy(self) -> "St":
         s = St()
@@ -81,11 +82,12 @@ class St:
         s.gbase = self.gbase
         s.status = self.status
         s.loopdepth = self.loopdepth
+        s.rewound = self.rewound
         return s
 
     def key(self):
         return (self.tok, self.status, frozenset(self.env.items()),
-                frozenset((k, v[0]) for k, v in self.pc.items()), self.guards, self.gbase)
+                frozenset((k, v[0]) for k, v in self.pc.items()), self.guards, self.gbase, self.rewound)
 
     def facts_about(self, symtext: str) -> List[bool]:
         """Polarities of the path-condition facts whose (whole) expression normalises to symtext."""
@@ -140,9 +142,13 @@ class Tracer:
         self._fid = 0
         self._interesting: Dict[int, bool] = {}
         self.inlined: Set[str] = set()
+        # closures / lambdas that are returned or handed to another callable (run later, if at all):
+        # (name, file:line, names of stream objects the deferred body refers to)
+        self.deferred: List[Tuple[str, str, Tuple[str, ...]]] = []
 
     # ------------------------------------------------------------------ entry
-    def run(self, fi: FuncInfo, stream_param: Optional[str] = None, self_is_stream=False) -> List[St]:
+    def run(self, fi: FuncInfo, stream_param: Optional[str] = None, self_is_stream=False,
+            value_param: Optional[str] = None) -> List[St]:
         fr = self._frame(fi, fi.cls, fi.module, 0, (fi.full,))
         st = St()
         a = fi.node.args
@@ -151,7 +157,8 @@ class Tracer:
             st.env[params[0].arg] = ("stream", "main") if self_is_stream else "@"
             params = params[1:]
         for p in params + list(a.kwonlyargs):
-            st.env[p.arg] = ("stream", "main") if p.arg == stream_param else "<param>"
+            st.env[p.arg] = ("stream", "main") if p.arg == stream_param else \
+                "<value>" if p.arg == value_param else "<param>"
         if a.vararg:
             st.env[a.vararg.arg] = "<param>"
         if a.kwarg:
@@ -175,7 +182,7 @@ class Tracer:
                 return v
             if v[0] == "stream":
                 return f"<stream:{v[1]}>"
-            return "<closure>"
+            return f"<{v[0]}>"
         if isinstance(node, ast.Attribute):
             if isinstance(node.value, ast.Name) and node.value.id not in st.env:
                 tgt = fr.mod.imports.get(node.value.id)
@@ -335,11 +342,17 @@ class Tracer:
                     v = x.env.get(s.value.id)
                     if isinstance(v, tuple) and v[0] == "closure":
                         # a returned closure is assumed to be run later by the receiver
-                        for y in self._inline_closure(v[1], [], [], x, fr):
+                        for y in self._inline_closure(v[1], [], [], x, fr, deferred=True):
                             if y.status == "n":
                                 y.status = "ret"
                             out.append(y)
                         continue
+                if x.status == "n" and isinstance(s.value, ast.Lambda):
+                    for y in self._deferred_lambda(s.value, x, fr):
+                        if y.status == "n":
+                            y.status = "ret"
+                        out.append(y)
+                    continue
                 if x.status == "n":
                     x.status = "ret"
                 out.append(x)
@@ -360,7 +373,26 @@ class Tracer:
                 for x in states:
                     if x.status == "n" and item.optional_vars is not None:
                         self._assign(item.optional_vars, item.context_expr, x, fr)
-            return self.block(s.body, states, fr)
+            marks = []
+            for item in s.items:
+                c = item.context_expr
+                if isinstance(c, ast.Call) and isinstance(c.func, ast.Attribute) and c.func.attr == "scoped_seek":
+                    marks.append(self.stream_of(c.func.value, st))
+            if not any(m is not None for m in marks):
+                return self.block(s.body, states, fr)
+            out = []
+            for x in states:
+                if x.status != "n":
+                    out.append(x)
+                    continue
+                n0 = len(x.tok)
+                for y in self.block(s.body, [x], fr):
+                    # the position is restored on every exit: what the body read was only peeked at
+                    if any(m is not None and self.record in (None, m) for m in marks):
+                        y.tok = y.tok[:n0]
+                    y.rewound = True
+                    out.append(y)
+            return out
         if isinstance(s, ast.Try):
             return self._try(s, st, fr)
         if isinstance(s, ast.Assert):
@@ -397,6 +429,10 @@ class Tracer:
                     st.tok = st.tok + (("O",),)      # a local window is opened on this path
             elif isinstance(value, ast.Name) and isinstance(st.env.get(value.id), tuple):
                 val = st.env[value.id]
+            elif isinstance(value, ast.Call) and isinstance(value.func, ast.Attribute) and value.func.attr == "tell" \
+                    and not value.args and self.stream_of(value.func.value, st) is not None:
+                # a remembered stream position: seeking back to it un-consumes what was read since
+                val = ("pos", self.stream_of(value.func.value, st), st.loopdepth, len(st.tok))
             elif isinstance(value, ast.Lambda):
                 val = "<lambda>"
             else:
@@ -783,7 +819,7 @@ class Tracer:
             elif attr in NEUTRAL_STREAM_METHODS:
                 pass
             elif attr == "seek":
-                self._event(st, recv_stream, ("X", "seek"), node, fr)
+                self._seek(node, recv_stream, st, fr)
             else:
                 self._event(st, recv_stream, ("X", f"call:{attr}"), node, fr)
             return [st]
@@ -805,12 +841,59 @@ class Tracer:
             self._event(st, sid, ("X", f"handoff:{self.sym(f, st, fr)}"), node, fr)
         # closures handed to someone else are assumed to be run by the receiver
         states = [st]
-        for a in node.args:
+        for a in list(node.args) + [k.value for k in node.keywords]:
             if isinstance(a, ast.Name):
                 v = st.env.get(a.id)
                 if isinstance(v, tuple) and v[0] == "closure":
-                    states = self._fm(states, lambda x, v=v: self._inline_closure(v[1], [], [], x, fr))
+                    states = self._fm(states, lambda x, v=v: self._inline_closure(v[1], [], [], x, fr, deferred=True))
+            elif isinstance(a, ast.Lambda):
+                states = self._fm(states, lambda x, a=a: self._deferred_lambda(a, x, fr))
         return states
+
+    def _seek(self, node: ast.Call, sid: str, st: St, fr: Frame):
+        pos = node.args[0] if node.args else next((k.value for k in node.keywords if k.arg == "pos"), None)
+        wh = node.args[1] if len(node.args) > 1 else next((k.value for k in node.keywords if k.arg == "whence"), None)
+        whs = self.sym(wh, st, fr).split(".")[-1] if wh is not None else "SEEK_SET"
+        if isinstance(pos, ast.Name) and whs == "SEEK_SET":
+            v = st.env.get(pos.id)
+            if isinstance(v, tuple) and v[0] == "pos" and v[1] == sid and v[2] == st.loopdepth:
+                if self.record in (None, sid):
+                    st.tok = st.tok[:v[3]]
+                st.rewound = True
+                return
+        if isinstance(pos, ast.Constant) and pos.value == 0 and whs == "SEEK_CUR":
+            return                                       # relative seek by nothing
+        self._event(st, sid, ("X", "seek"), node, fr)
+
+    def _stream_refs(self, body_nodes, params: Set[str], st: St) -> Tuple[str, ...]:
+        local = set(params)
+        for n in body_nodes:
+            for x in ast.walk(n):
+                if isinstance(x, ast.Name) and isinstance(x.ctx, ast.Store):
+                    local.add(x.id)
+        refs = set()
+        for n in body_nodes:
+            for x in ast.walk(n):
+                if isinstance(x, ast.Name) and isinstance(x.ctx, ast.Load) and x.id not in local:
+                    v = st.env.get(x.id)
+                    if isinstance(v, tuple) and v[0] == "stream":
+                        refs.add(x.id)
+        return tuple(sorted(refs))
+
+    def _deferred_lambda(self, lam: ast.Lambda, st: St, fr: Frame) -> List[St]:
+        a = lam.args
+        params = {p.arg for p in list(a.posonlyargs) + list(a.args) + list(a.kwonlyargs)}
+        self.deferred.append(("<lambda>", f"{fr.mod.rel}:{lam.lineno}", self._stream_refs([lam.body], params, st)))
+        saved = dict(st.env)
+        for p in params:
+            st.env[p] = "<param>"
+        out = []
+        for r in self.expr(lam.body, st, fr):
+            if r.status == "raise":
+                continue
+            r.env = dict(saved)
+            out.append(r)
+        return out
 
     # ------------------------------------------------------------------ inlining
     def _resolve(self, node: ast.Call, st: St, fr: Frame):
@@ -884,12 +967,15 @@ class Tracer:
             out.append(r)
         return out
 
-    def _inline_closure(self, fn_node, args, keywords, st: St, fr: Frame) -> List[St]:
+    def _inline_closure(self, fn_node, args, keywords, st: St, fr: Frame, deferred=False) -> List[St]:
         key = f"{fr.mod.rel}::<closure {fn_node.name}@{id(fn_node)}>"
-        if fr.depth >= self.max_depth or key in fr.stack:
-            return [st]
         a = fn_node.args
         params = list(a.posonlyargs) + list(a.args)
+        if deferred:
+            self.deferred.append((fn_node.name, f"{fr.mod.rel}:{fn_node.lineno}",
+                                  self._stream_refs(fn_node.body, {p.arg for p in params + list(a.kwonlyargs)}, st)))
+        if fr.depth >= self.max_depth or key in fr.stack:
+            return [st]
         saved = dict(st.env)
         for i, arg in enumerate(args):
             if isinstance(arg, ast.Starred):
